@@ -1241,11 +1241,6 @@ func (g *Gen) genBuy() *eng.Tx {
 				ord.MaxFeeAmount = &c
 			}
 		}
-		if n := len(m.Orders); n > 0 && m.Orders[n-1].MaxFeeAmount != nil && g.chance(0.3) {
-			// the previous entry stated a max fee, this one states none (= zero): every entry is judged by its
-			// own statement only
-			ord.MaxFeeAmount = nil
-		}
 		if den != mk.BankDenom && g.chance(0.8) {
 			// a client that believes the order is priced in `den` also states its max fee in `den`
 			if g.chance(0.3) {
